@@ -4,7 +4,8 @@ PROP = {
     "generated": ["EnvelopeTables", "MultiReaderConsts"],
     "lean_modules": ["SwimVerif.Model.Envelope", "SwimVerif.Proofs.Envelope", "SwimVerif.Generated.EnvelopeTables",
                      "SwimVerif.Model.Routing", "SwimVerif.Model.RoutingMon", "SwimVerif.Proofs.Routing",
-                     "SwimVerif.Model.MultiReader", "SwimVerif.Proofs.MultiReader", "SwimVerif.Generated.MultiReaderConsts"],
+                     "SwimVerif.Model.MultiReader", "SwimVerif.Proofs.MultiReader", "SwimVerif.Proofs.MultiReaderReady",
+                     "SwimVerif.Generated.MultiReaderConsts"],
     "engines": [
         {"name": "pure", "crate": "core", "bin": "sv-c11", "machine": "c11pure",
          "cases": {"quick": 24000, "thorough": 1600000}, "min_shard": 2000, "gen_args": ["pure"], "nontrivial_min_ops": 1},
